@@ -7,52 +7,55 @@
   `Gen.handout`, `Gen.recordsOwn` are GENERATED from community.py on every run, so the statements below are re-proved
   against the guard list the source has now; deleting or re-wiring a guard of should_sign breaks `shouldSign_spec`.
 
-  Signatures are verification facts (`verifies obj.vk k` = "the object's signature verifies under key k"); no law about
-  them is assumed apart from `SignLaw` below (a node's own fresh signature verifies under its own key), which is used
-  only for the statement that stored rows verify.  Nothing here says a signature cannot be forged.
+  Signatures are verification facts (`verifies obj.vk k` = "the object's signature verifies under key k").  One law is
+  BUILT INTO the model, not a hypothesis: the attestation a node makes itself verifies under its own key
+  (`ownAtt.vk := 1 <<< me`, lemma `verifies_own`); `stored_attestations_verify` depends on it for the node's own rows.
+  Nothing here says a signature cannot be forged.  Time stamps are milliseconds.
 -/
 import Ipv8.C17.Lemmas
 
 namespace Ipv8.C17
 
-/-- the one crypto law the model builds in: the attestation a node makes verifies under its own key.
-    Stated as an explicit, satisfiable bundle (`example` below), used by `stored_attestations_verify`. -/
-structure SignLaw (mk : Key → Hash → Att) : Prop where
-  own_verifies : ∀ k mp, verifies (mk k mp).vk k = true
-
-example : SignLaw ownAtt := ⟨fun k _ => verifies_own k⟩
-
 /--
-  **Consent.**  For every object `s0` that starts fresh over an arbitrary valid database (`Fresh`: `init`, or any
-  restart of any earlier object, see `every_lifetime_starts_fresh`), every history `pre` of that object, every time
+  **Consent.**  For every object `s0` that starts fresh over an arbitrary valid database (`Started`: `init`, or any
+  restart of any earlier object with a new or with the old IdentityManager, see `every_lifetime_starts_clean`), every history `pre` of that object, every time
   `now` and every next event `e`: if the node emits an AttestPayload
   for metadata `mp` to peer `p`, then
   * `e` is a disclosure (Disclose or MissingResponse message) from `p` itself,
-  * `pre` contains an `add_known_hash` call at some time `t0` with `now ≤ t0 + 300`, for exactly subject key `p`, exactly
+  * `pre` (the events BEFORE `e` in this lifetime) contains an `add_known_hash` call stamped `t0` with
+    `now ≤ t0 + 300 s` — and `now < t0 + 300 s` if the generated age guard is the strict one (`Gen.windowStrict`); if the
+    clock never ran backwards (`∀ x ∈ pre, x.1 ≤ now`) then `t0 ≤ now`; the call is for exactly subject key `p`, exactly
     the name the metadata carries, and (if the call fixed extra metadata) exactly the metadata's extra dict, whose
     (padded) hash is the content hash of the token the metadata points to,
   * the metadata is a JSON dict with name, date and schema, is signed by `p`, and points to a token signed by `p` that is
     in `p`'s tree,
   * every token and every (authority, attestation) pair of the triggering message verifies, and the token the metadata
-    points to has an unbroken path (`Rooted`) of tokens, all verifying under `p`, down to `p`'s genesis hash
-    ("the disclosed chain verifies").
+    points to has an unbroken path (`Rooted`) of tokens, all verifying under `p`, down to `p`'s genesis hash `gp`
+    (for subjects that have one in the table `g`) — "the disclosed chain verifies".  The path part needs the trees the
+    object starts with to be rooted (`TreesRooted s0`): true for `init` and for every restart that keeps the old
+    IdentityManager (`lifetimes_keep_rooted`); NOT guaranteed after a restart with a new manager, because
+    `PseudonymManager.__init__` reloads the stored tokens unverified and the Tokens table can lack ancestors that arrived
+    in a message whose parsing later raised.
 -/
-theorem sign_requires_consent (g : List (Key × Hash)) (s0 : Node) (hs0 : Fresh g s0) (pre : List (Nat × Event))
+theorem sign_requires_consent (g : List (Key × Hash)) (s0 : Node) (hs0 : Started g s0) (pre : List (Nat × Event))
     (now : Nat) (e : Event) (p : Key) (mp : Hash) (h : Out.attest p mp ∈ (step now (run s0 pre).1 e).2) :
     ∃ (msg : Msg) (order : List Hash) (m : Metadata) (j : Json) (tk : Token) (t0 len raw padded : Nat)
       (md : Option Extra),
       e = .disclosure p msg order ∧
       (t0, Event.addKnown len raw padded j.name p md) ∈ pre ∧
       tk.content = (if len = Gen.padLen then padded else raw) ∧
-      now ≤ t0 + 300 ∧ (md = none ∨ md = some j.extra) ∧
+      now ≤ t0 + 300000 ∧ (Gen.windowStrict = true → now < t0 + 300000) ∧
+      ((∀ x ∈ pre, x.1 ≤ now) → t0 ≤ now) ∧ (md = none ∨ md = some j.extra) ∧
       m.id = mp ∧ m.json = some j ∧ j.has .name = true ∧ j.has .date = true ∧ j.has .schema = true ∧
       tk.id = m.tokenPtr ∧ verifies m.vk p = true ∧ verifies tk.vk p = true ∧
       (∀ t ∈ msg.tokens, verifies t.vk p = true) ∧ (∀ a ∈ msg.atts, verifies a.2.vk a.1 = true) ∧
-      (∃ els : List Token, (∀ x ∈ els, verifies x.vk p = true) ∧ Rooted ((lookup p g).getD 0) els tk) := by
-  have hok := run_ok' hs0.nodeOk pre
-  obtain ⟨hroot, hgen⟩ := run_rooted' hs0.rooted hs0.genesis pre
+      (TreesRooted s0 → ∃ els : List Token, (∀ x ∈ els, verifies x.vk p = true) ∧
+        ∀ gp, lookup p g = some gp → Rooted gp els tk) := by
+  have hok := run_ok' hs0.ok pre
+  have hroot : TreesRooted s0 → TreesRooted (run s0 pre).1 := fun h => (run_rooted' h hs0.genesis pre).1
+  have hgen : (run s0 pre).1.genesis = g := (run_genesis s0 pre).trans hs0.genesis
   have hkn : KnownFrom pre (run s0 pre).1 := by
-    simpa using run_knownFrom pre [] _ (fresh_knownFrom hs0)
+    simpa using run_knownFrom pre [] _ (started_knownFrom hs0)
   generalize (run s0 pre).1 = s at h hok hkn hroot hgen
   cases e with
   | addKnown l raw padded name key md => simp [step] at h
@@ -64,67 +67,63 @@ theorem sign_requires_consent (g : List (Key × Hash)) (s0 : Node) (hs0 : Fresh 
     simp only [step] at h
     obtain ⟨hq, hcorr, hab, m, j, s', hm, hid, hj, hss, hk, _⟩ := received_attest h
     subst hq
-    obtain ⟨tk, r, hfind, hlook, hkey, hage, hn, hd, hsc, hname, hmd, _⟩ := shouldSign_spec hss
+    obtain ⟨tk, r, hfind, hlook, hkey, ⟨hage, hstrict⟩, hn, hd, hsc, hname, hmd, _⟩ := shouldSign_spec hss
     rw [hk] at hlook
     obtain ⟨x, hx, len, raw, padded, hxe, hh⟩ := hkn _ _ hlook
     obtain ⟨hmem, htid⟩ := find?_mem_elements hfind
     have hsok := substantiate_ok hok p msg
     obtain ⟨htoks, hatts⟩ := substantiate_correct hcorr hab
-    have hsroot := substantiate_rooted hroot p msg
     have hg1 : genesisOf (substantiate s p msg).1 p = (lookup p g).getD 0 := by
       simp only [genesisOf]; rw [(substantiate_frame s p msg).2.2.2.2.2, hgen]
-    refine ⟨msg, order, m, j, tk, r.t, len, raw, padded, r.md, rfl, ?_, hh, hage, hmd, hid, hj, hn, hd, hsc, htid,
-            ?_, ?_, htoks, hatts, (treeOf (substantiate s p msg).1 p).elements, ?_, ?_⟩
-    · rw [hname, ← hkey, ← hxe]; exact hx
+    have hx' : (r.t, Event.addKnown len raw padded j.name p r.md) ∈ pre := by
+      rw [hname, ← hkey, ← hxe]; exact hx
+    refine ⟨msg, order, m, j, tk, r.t, len, raw, padded, r.md, rfl, hx', hh, hage, hstrict, fun hm => hm _ hx', hmd,
+            hid, hj, hn, hd, hsc, htid, ?_, ?_, htoks, hatts, fun hr0 =>
+              ⟨(treeOf (substantiate s p msg).1 p).elements, ?_, ?_⟩⟩
     · exact hsok.mds _ (credentials_mem hm)
     · exact treeOf_ok hsok p tk (Or.inl hmem)
     · exact fun x hx => treeOf_ok hsok p x (Or.inl hx)
-    · rw [← hg1]; exact treeOf_rooted hsroot p tk hmem
+    · intro gp hgp
+      have : genesisOf (substantiate s p msg).1 p = gp := by rw [hg1, hgp]; rfl
+      rw [← this]; exact treeOf_rooted (substantiate_rooted (hroot hr0) p msg) p tk hmem
 
-/-- non-vacuity of `sign_requires_consent`: a registration at t=100, an honest disclosure at t=400 is attested
-    (exactly at the end of the window), at t=401 it is not -/
+/-- non-vacuity of `sign_requires_consent`: a registration at t=100 s, an honest disclosure at t=400 s is attested
+    (exactly at the end of the window, if the generated guard is the closed one), one millisecond later it is not -/
 def exTok : Token := { id := 11, prev := 1, content := 7, vk := 4 }
 def exMd : Metadata := { id := 12, tokenPtr := 11, vk := 4, json := some { fields := 7, name := 1, extra := 1 } }
 def exMsg : Msg := { tokens := [exTok], mds := [exMd] }
-def exPre : List (Nat × Event) := [(100, .addKnown 32 7 8 1 2 none)]
+def exPre : List (Nat × Event) := [(100000, .addKnown 32 7 8 1 2 none)]
 
-example : (step 400 (run (init 1 [(1, 0), (2, 1)]) exPre).1 (.disclosure 2 exMsg [12])).2 = [Out.attest 2 12] := by
+example : (step 400000 (run (init 1 [(1, 0), (2, 1)]) exPre).1 (.disclosure 2 exMsg [12])).2
+    = (if Gen.windowStrict then [] else [Out.attest 2 12]) := by decide
+example : (step 399999 (run (init 1 [(1, 0), (2, 1)]) exPre).1 (.disclosure 2 exMsg [12])).2 = [Out.attest 2 12] := by
   decide
-example : (step 401 (run (init 1 [(1, 0), (2, 1)]) exPre).1 (.disclosure 2 exMsg [12])).2 = [] := by decide
+example : (step 400001 (run (init 1 [(1, 0), (2, 1)]) exPre).1 (.disclosure 2 exMsg [12])).2 = [] := by decide
 /-- registered for subject 3 only: subject 2 gets nothing, even though it holds another valid registration -/
-example : (step 150 (run (init 1 [(1, 0), (2, 1)]) [(100, .addKnown 32 7 8 1 3 none), (100, .addKnown 32 9 8 1 2 none)]).1
+example : (step 150000 (run (init 1 [(1, 0), (2, 1)]) [(100000, .addKnown 32 7 8 1 3 none), (100000, .addKnown 32 9 8 1 2 none)]).1
     (.disclosure 2 { tokens := [exTok, { id := 13, prev := 11, content := 9, vk := 4 }], mds := [exMd] } [12])).2 = [] := by
   decide
 
 /-
-  The property text says "less than five minutes earlier".  The strict statement (`now < t0 + 300` in
-  `sign_requires_consent`) is NOT provable: the code rejects `time() > t + 300` ("Refuse to sign blocks older than 5
-  minutes"), so a registration that is exactly 300 s old still signs.  Judged not a defect (one instant of a float clock;
-  the code agrees with its own comment); the proved bound is `now ≤ t0 + 300`, and the witness for the boundary is:
+  "less than five minutes earlier": `sign_requires_consent` proves `now ≤ t0 + 300 s` unconditionally and the strict
+  `now < t0 + 300 s` under `Gen.windowStrict = true`, i.e. when the source's age guard is `time() >= t + 300`.  Today the
+  source has `time() > t + 300` ("Refuse to sign blocks older than 5 minutes"), `Gen.windowStrict = false`, and the
+  strict clause of the property text is NOT proved: a registration exactly 300 s old still signs (first example above).
+  Both forms of the guard translate, build and pass the oracle.
 -/
-theorem window_is_closed_at_300 :
-    Out.attest 2 12 ∈ (step (100 + 300) (run (init 1 [(1, 0), (2, 1)]) exPre).1 (.disclosure 2 exMsg [12])).2 ∧
-    Out.attest 2 12 ∉ (step (100 + 301) (run (init 1 [(1, 0), (2, 1)]) exPre).1 (.disclosure 2 exMsg [12])).2 := by
-  decide
 
 /--
-  **Not attested already.**  Over any history, no two AttestPayloads are made over the same metadata: the list of
-  attested metadata hashes has no duplicates (whatever third-party attestations were stored in between, however often a
-  disclosure is replayed).
+  **Not attested already** — PARTIAL.  "It" is read as the metadata object an attestation points to (an `Attestation`
+  is a pointer to a `Metadata`); a registration is a 300 s window of consent, not a one-shot: two credentials of the
+  subject carrying the same attribute hash are both attested (the repository's `test_advertise_twice` expects exactly
+  that).  FULL statement wanted: over all lifetimes of a node, no metadata hash is attested twice.
+  PROVED: from ANY starting state (any database rows, metadata rows and trees an earlier object left behind; the record
+  `attested_metadata` as it is), within one object lifetime nothing is attested twice and nothing on record at the start
+  is attested again — whatever third-party attestations are stored in between, however often a disclosure is replayed.
+  MISSING (false for the code, `attested_again_after_restart_witness`): across two lifetimes, when a third party's row
+  for the same (subject, metadata) was stored before the node's own.
 -/
-theorem attests_each_metadata_once (me : Key) (g : List (Key × Hash)) (evs : List (Nat × Event)) :
-    (attestsOf (run (init me g) evs).2).Nodup :=
-  (run_attested evs (init me g)).2.2
-
-/--
-  The same from ANY starting state — in particular from a state whose database rows, metadata rows and trees were left
-  behind by an earlier object (a restart keeps the database, `attested_metadata` starts empty): within one object
-  lifetime nothing is attested twice and nothing that the object has on record is attested again.
-  NOT covered (and false in the model, see the example below): across two lifetimes.  The database guard cannot see the
-  node's own earlier attestation if a third party's row for the same (subject, metadata) was stored first, so after a
-  restart AND a renewed registration by the user the metadata can be attested a second time.
--/
-theorem attests_each_metadata_once_per_lifetime (s : Node) (evs : List (Nat × Event)) :
+theorem attests_each_metadata_once_partial (s : Node) (evs : List (Nat × Event)) :
     (attestsOf (run s evs).2).Nodup ∧ ∀ mp ∈ attestsOf (run s evs).2, mp ∉ s.attested :=
   ⟨(run_attested evs s).2.2, fun mp h => ((run_attested evs s).2.1 mp h).2⟩
 
@@ -132,14 +131,14 @@ theorem attests_each_metadata_once_per_lifetime (s : Node) (evs : List (Nat × E
     registers again, the old disclosure is replayed → attested again; with the node's own row kept instead → refused -/
 example : attestsOf (run { init 1 [(1, 0), (2, 1)] with
       attRows := [⟨2, 3, { mptr := 12, sig := .ext 5, vk := 8 }⟩] }
-    (exPre ++ [(120, .disclosure 2 exMsg [12])])).2 = [12] := by decide
+    (exPre ++ [(120000, .disclosure 2 exMsg [12])])).2 = [12] := by decide
 example : attestsOf (run { init 1 [(1, 0), (2, 1)] with attRows := [⟨2, 1, ownAtt 1 12⟩] }
-    (exPre ++ [(120, .disclosure 2 exMsg [12])])).2 = [] := by decide
+    (exPre ++ [(120000, .disclosure 2 exMsg [12])])).2 = [] := by decide
 
 /-- the replayed disclosure of the example above, also with a third party's attestation stored first -/
 example : attestsOf (run (init 1 [(1, 0), (2, 1)])
-    (exPre ++ [(110, .disclosure 2 { exMsg with atts := [(3, { mptr := 12, sig := .ext 5, vk := 8 })] } [12]),
-               (120, .disclosure 2 exMsg [12]), (130, .disclosure 2 exMsg [12])])).2 = [12] := by decide
+    (exPre ++ [(110000, .disclosure 2 { exMsg with atts := [(3, { mptr := 12, sig := .ext 5, vk := 8 })] } [12]),
+               (120000, .disclosure 2 exMsg [12]), (130000, .disclosure 2 exMsg [12])])).2 = [12] := by decide
 
 /--
   **Storing.**  An incoming AttestPayload from peer `p` adds a row only if the attestation's signature verifies under
@@ -175,9 +174,9 @@ theorem disclosure_stores_only_verified (now : Nat) (s : Node) (p : Key) (msg : 
   received_rows h
 
 /-- Over any history, every row of the Attestations table verifies under its authority key. -/
-theorem stored_attestations_verify (g : List (Key × Hash)) (s0 : Node) (hs0 : Fresh g s0)
+theorem stored_attestations_verify (g : List (Key × Hash)) (s0 : Node) (hs0 : Started g s0)
     (evs : List (Nat × Event)) : ∀ r ∈ (run s0 evs).1.attRows, verifies r.att.vk r.authority = true :=
-  (run_ok' hs0.nodeOk evs).rows
+  (run_ok' hs0.ok evs).rows
 
 /--
   **Token hand-out.**  In any state, the only event that makes the node emit a MissingResponsePayload is a
@@ -213,35 +212,13 @@ example : (step 0 { init 1 [] with chain := [5, 6, 7, 8], perms := [(2, 3)] } (.
     = [Out.missingResponse 3 []] := by decide
 
 /--
-  The DisclosePayload of `request_attestation_advertisement(to, …)` carries tokens of the chain up to exactly the
-  position that call opens to `to`, and is sent to `to`.
--/
-theorem disclosed_tokens_within_permission (now : Nat) (s : Node) (e : Event) (q : Key) (md : Hash)
-    (cands : List Hash) (n : Nat) (h : Out.disclose q md cands n ∈ (step now s e).2) :
-    (∃ tok ml, e = .advertise q tok md ml) ∧
-      cands = (step now s e).1.chain.take ((lookup q (step now s e).1.perms).getD 0) := by
-  cases e with
-  | addKnown l raw padded name key md => simp [step] at h
-  | attestMsg p a => simp [step] at h
-  | requestMissing p k => simp [step] at h
-  | selfAdvertise tok => simp [step] at h
-  | disclosure p msg order =>
-    simp only [step] at h
-    rcases received_outs h with ⟨_, h1⟩ | ⟨_, h1⟩ <;> cases h1
-  | advertise to tok md' ml =>
-    simp only [step, List.mem_singleton, Out.disclose.injEq] at h
-    obtain ⟨h1, h2, h3, _⟩ := h
-    subst h1 h2 h3
-    exact ⟨⟨tok, ml, rfl⟩, by simp [step, lookup_insertDict]; rw [List.take_of_length_le (by simp)]⟩
-
-/--
   **Permissions come only from the user.**  Over any history: a permission entry for peer `p` exists only if the history
   contains a `request_attestation_advertisement` call naming `p`, and it never exceeds the chain length.
 -/
-theorem permission_only_by_user (g : List (Key × Hash)) (s0 : Node) (hs0 : Fresh g s0) (pre : List (Nat × Event))
+theorem permission_only_by_user (g : List (Key × Hash)) (s0 : Node) (hs0 : Started g s0) (pre : List (Nat × Event))
     (p : Key) (n : Nat) (h : lookup p (run s0 pre).1.perms = some n) :
     n ≤ (run s0 pre).1.chain.length ∧ ∃ t tok md ml, (t, Event.advertise p tok md ml) ∈ pre := by
-  have := run_permsFrom pre [] _ (fresh_permsFrom hs0)
+  have := run_permsFrom pre [] _ (started_permsFrom hs0)
   simp only [List.nil_append] at this
   exact this p n h
 
@@ -251,7 +228,7 @@ theorem chain_is_append_only (s : Node) (evs : List (Nat × Event)) : s.chain <+
 
 /-- A peer the user never named in `request_attestation_advertisement` receives no token from any
     RequestMissingPayload, whatever else happened before. -/
-theorem unpermitted_peer_gets_nothing (g : List (Key × Hash)) (s0 : Node) (hs0 : Fresh g s0)
+theorem unpermitted_peer_gets_nothing (g : List (Key × Hash)) (s0 : Node) (hs0 : Started g s0)
     (pre : List (Nat × Event)) (now : Nat) (e : Event) (q : Key) (ts : List Hash)
     (hnever : ∀ t tok md ml, (t, Event.advertise q tok md ml) ∉ pre)
     (h : Out.missingResponse q ts ∈ (step now (run s0 pre).1 e).2) : ts = [] := by
@@ -295,13 +272,26 @@ example : lookup 2 (run (init 1 []) [(0, .selfAdvertise 5), (1, .advertise 2 6 7
 
 /--
   **Restarts.**  However many object lifetimes precede it (each: an arbitrary history, then a new object over the same
-  database with whatever chain `__init__` reloads), an object starts `Fresh`: every theorem above that takes a `Fresh`
+  database with whatever chain `__init__` reloads, with a new IdentityManager or the
+  old one whose cache keeps the subject trees), an object starts `Started`: every theorem above that takes a `Started`
   start state therefore holds in every lifetime — consent has to be given again in the current lifetime, permissions
   have to be opened again, stored rows still verify.
 -/
-theorem every_lifetime_starts_fresh (me : Key) (g : List (Key × Hash))
-    (ls : List (List (Nat × Event) × List Hash)) : Fresh g (lifetimes (init me g) ls) :=
-  lifetimes_fresh ls _ (init_fresh me g)
+theorem every_lifetime_starts_clean (me : Key) (g : List (Key × Hash))
+    (ls : List (List (Nat × Event) × List Hash × Bool)) : Started g (lifetimes (init me g) ls) :=
+  lifetimes_started ls _ (init_started me g)
+
+/-- trees stay rooted through `init` and any number of lifetimes whose restarts keep the old IdentityManager -/
+theorem lifetimes_keep_rooted (me : Key) (g : List (Key × Hash)) (ls : List (List (Nat × Event) × List Hash)) :
+    TreesRooted (lifetimes (init me g) (ls.map (fun l => (l.1, l.2, true)))) := by
+  suffices h : ∀ s, s.genesis = g → TreesRooted s → TreesRooted (lifetimes s (ls.map (fun l => (l.1, l.2, true)))) from
+    h _ rfl (init_rooted me g)
+  induction ls with
+  | nil => intro s _ h; exact h
+  | cons x rest ih =>
+    intro s hg h
+    simp only [List.map_cons, lifetimes]
+    exact ih _ ((run_genesis s x.1).trans hg) (restartOf_keep_rooted (run_rooted' h hg x.1).1 x.2)
 
 /-
   FULL statement wanted by "it has not attested it already", across lifetimes:
@@ -315,14 +305,61 @@ theorem every_lifetime_starts_fresh (me : Key) (g : List (Key × Hash))
 def exThird : Msg := { exMsg with atts := [(3, { mptr := 12, sig := .ext 5, vk := 8 })] }
 
 theorem attested_again_after_restart_witness :
-    attestsOf (run (init 1 [(1, 0), (2, 1)]) (exPre ++ [(110, .disclosure 2 exThird [12])])).2 = [12] ∧
-    attestsOf (run (restartOf (run (init 1 [(1, 0), (2, 1)]) (exPre ++ [(110, .disclosure 2 exThird [12])])).1 [])
-      ([(200, .addKnown 32 7 8 1 2 none), (210, .disclosure 2 exThird [12])])).2 = [12] := by decide
+    attestsOf (run (init 1 [(1, 0), (2, 1)]) (exPre ++ [(110000, .disclosure 2 exThird [12])])).2 = [12] ∧
+    attestsOf (run (restartOf (run (init 1 [(1, 0), (2, 1)]) (exPre ++ [(110000, .disclosure 2 exThird [12])])).1 [])
+      ([(200000, .addKnown 32 7 8 1 2 none), (210000, .disclosure 2 exThird [12])])).2 = [12] := by decide
 
 /-- without the third party's row the node's own row survives the restart and the database guard refuses -/
-example : attestsOf (run (restartOf (run (init 1 [(1, 0), (2, 1)]) (exPre ++ [(110, .disclosure 2 exMsg [12])])).1 [])
-      ([(200, .addKnown 32 7 8 1 2 none), (210, .disclosure 2 exMsg [12])])).2 = [] := by decide
+example : attestsOf (run (restartOf (run (init 1 [(1, 0), (2, 1)]) (exPre ++ [(110000, .disclosure 2 exMsg [12])])).1 [])
+      ([(200000, .addKnown 32 7 8 1 2 none), (210000, .disclosure 2 exMsg [12])])).2 = [] := by decide
 
-example : Fresh [(1, 0), (2, 1)] (init 1 [(1, 0), (2, 1)]) := init_fresh _ _
+example : Started [(1, 0), (2, 1)] (init 1 [(1, 0), (2, 1)]) := init_started _ _
+
+/--
+  **Only to peers.**  Whatever a step emits is addressed to the peer the event involves: the authenticated sender of the
+  message being handled, or the peer the user named in `request_attestation_advertisement`.  Events without a peer
+  (add_known_hash, self_advertise) emit nothing.  (That the sender of a message is authentic is C01's subject.)
+-/
+theorem outputs_go_to_the_peer_involved (now : Nat) (s : Node) (e : Event) (o : Out) (h : o ∈ (step now s e).2) :
+    e.peer = some o.dest := by
+  cases e with
+  | addKnown l raw padded name key md => simp [step] at h
+  | selfAdvertise tok => simp [step] at h
+  | attestMsg p a => simp [step] at h
+  | requestMissing p k => simp [step] at h; subst h; rfl
+  | advertise to tok md ml => simp [step] at h; subst h; rfl
+  | disclosure p msg order =>
+    simp only [step] at h
+    rcases received_outs h with ⟨_, h1⟩ | ⟨_, h1⟩ <;> subst h1 <;> rfl
+
+/--
+  **Only up to the position the user opened — end to end.**  For every object that starts clean, every history `pre` of
+  it and every next event: if a MissingResponsePayload with tokens `ts ≠ []` leaves for peer `q`, then the event is a
+  RequestMissingPayload from `q`, and `pre` splits at the LAST `request_attestation_advertisement` call naming `q` such
+  that `ts` is a sublist of the chain as it was right after that call.  In words: `q` only ever receives tokens that
+  existed when the user last opened the chain to `q`, and only after the user did so in this lifetime.
+-/
+theorem tokens_handed_out_existed_when_opened (g : List (Key × Hash)) (s0 : Node) (hs0 : Started g s0)
+    (pre : List (Nat × Event)) (now : Nat) (e : Event) (q : Key) (ts : List Hash) (hne : ts ≠ [])
+    (h : Out.missingResponse q ts ∈ (step now (run s0 pre).1 e).2) :
+    (∃ k, e = .requestMissing q k) ∧
+    ∃ pre1 t tok md ml post, pre = pre1 ++ (t, Event.advertise q tok md ml) :: post ∧
+      (∀ x ∈ post, ∀ tok' md' ml', x.2 ≠ Event.advertise q tok' md' ml') ∧
+      ts.Sublist (run s0 (pre1 ++ [(t, Event.advertise q tok md ml)])).1.chain := by
+  obtain ⟨hev, hsub, hnone⟩ := tokens_only_up_to_permission now _ e q ts h
+  refine ⟨hev, ?_⟩
+  cases hl : lookup q (run s0 pre).1.perms with
+  | none => exact absurd (hnone hl) hne
+  | some n =>
+    obtain ⟨_, t', tok', md', ml', hm⟩ := permission_only_by_user g s0 hs0 pre q n hl
+    obtain ⟨pre1, t, tok, md, ml, post, hsplit, hpost⟩ :=
+      exists_last_advertise q pre ⟨_, hm, tok', md', ml', rfl⟩
+    refine ⟨pre1, t, tok, md, ml, post, hsplit, hpost, ?_⟩
+    obtain ⟨hperm, htake⟩ := permission_is_position_opened s0 pre1 post t q tok md ml hpost
+    rw [← hsplit] at hperm htake
+    rw [hl] at hperm
+    simp only [Option.some.injEq] at hperm
+    rw [hl, Option.getD_some, hperm, htake] at hsub
+    exact hsub
 
 end Ipv8.C17
